@@ -124,7 +124,6 @@ func zzE2EKeyed(gk, gv, keys, vals []int64, what string) {
 // and a reducing merge on the consumer side.
 func zzH_C01_e2e_reduce()       { zzE2EReduceHarness(2, false) }
 func zzH_C01_e2e_reduce_quick() { zzE2EReduceHarness(2, true) }
-func zzH_C01_e2e_reduce_deep()  { zzE2EReduceHarness(3, true) }
 
 func zzE2EReduceHarness(maxRows int, fixed bool) {
 	old := *defaultChunksize
@@ -384,4 +383,219 @@ func zzH_C06_e2e_panic() {
 	gk, gv, serr := zzE2EScan(res2)
 	zz.Assert(serr == nil, "scanning a successful result does not fail")
 	zzE2ESameMultiset(gk, gv, wk, wv, "run after a failed run")
+}
+
+func zzUFExpand(k, v int64) (ks, vs []int64) {
+	n := int(zz.UFInt64("e2e.Glen", k, v))
+	zz.Assume(zz.And(n >= 0, n <= 2))
+	for i := 0; i < n; i++ {
+		ks, vs = append(ks, k), append(vs, zz.UFInt64("e2e.Gval", k, v, int64(i)))
+	}
+	return
+}
+
+var zzE2EFlatmapHead = bigslice.Func(func(nshard, head int, keys, vals []int64) bigslice.Slice {
+	s := bigslice.Const(nshard, keys, vals)
+	s = bigslice.Flatmap(s, zzUFExpand)
+	return bigslice.Head(s, head)
+})
+
+// zzH_C01_e2e_flatmapHead: Const -> Flatmap -> Head(n): per shard, the first n
+// rows of the concatenated expansions, shards in order.
+func zzH_C01_e2e_flatmapHead() {
+	old := *defaultChunksize
+	*defaultChunksize = zz.AnyIntIn("chunk", 1, 2)
+	defer func() { *defaultChunksize = old }()
+	sess := Start(Local, Parallelism(1))
+	n := zz.AnyIntIn("rows", 0, 2)
+	nshard := zz.AnyIntIn("nshard", 1, 2)
+	head := zz.AnyIntIn("head", 0, 3)
+	keys, vals := zzE2ERows(n)
+	res, err := sess.Run(context.Background(), zzE2EFlatmapHead, nshard, head, keys, vals)
+	zz.Assert(err == nil, "a failure-free program runs to success")
+	if err != nil {
+		return
+	}
+	gk, gv, err := zzE2EScan(res)
+	zz.Assert(err == nil, "scanning a successful result does not fail")
+	zz.Reach("scanned")
+	// reference: Const puts rows [lo,hi) of the input in each shard, in order
+	var wk, wv []int64
+	for shard := 0; shard < nshard; shard++ {
+		// Const: shard s holds n/nshard consecutive rows, the first n%nshard shards one more
+		lo := (n/nshard)*shard + shard
+		if shard > n%nshard {
+			lo = (n/nshard)*shard + n%nshard
+		}
+		hi := lo + n/nshard
+		if shard < n%nshard {
+			hi++
+		}
+		taken := 0
+		for i := lo; i < hi; i++ {
+			ks, vs := zzUFExpand(keys[i], vals[i])
+			for j := range ks {
+				if taken < head {
+					wk, wv = append(wk, ks[j]), append(wv, vs[j])
+					taken++
+				}
+			}
+		}
+		if taken == head && head > 0 {
+			zz.Reach("Head cut a shard")
+		}
+	}
+	zz.Assert(len(gk) == len(wk), "the result has exactly the rows the operators prescribe")
+	if len(gk) != len(wk) {
+		return
+	}
+	for i := range wk {
+		zz.Assert(zz.And(gk[i] == wk[i], gv[i] == wv[i]), "the result has exactly the rows the operators prescribe, in order")
+	}
+}
+
+var zzE2ECogroup = bigslice.Func(func(nshard int, ka, va, kb, vb []int64) bigslice.Slice {
+	return bigslice.Cogroup(bigslice.Const(nshard, ka, va), bigslice.Const(nshard, kb, vb))
+})
+
+// zzE2EGroupIs asserts that g is, as a multiset (up to 2 values), the values
+// of the rows of (keys, vals) whose key is k.
+func zzE2EGroupIs(g []int64, k int64, keys, vals []int64, what string) {
+	cnt := 0
+	for j := range keys {
+		cnt += zz.IteInt(keys[j] == k, 1, 0)
+	}
+	zz.Assert(len(g) == cnt, what+": the group has one value per row of that key")
+	if len(g) != zz.Concrete(cnt) {
+		return
+	}
+	var want []int64
+	for j := range keys {
+		if keys[j] == k {
+			want = append(want, vals[j])
+		}
+	}
+	switch len(want) {
+	case 1:
+		zz.Assert(g[0] == want[0], what+": the group holds the key's values")
+	case 2:
+		zz.Assert(zz.Or(zz.And(g[0] == want[0], g[1] == want[1]), zz.And(g[0] == want[1], g[1] == want[0])), what+": the group holds the key's values")
+	}
+}
+
+// zzH_C01_e2e_cogroup: Cogroup of two Const inputs through the whole run: two
+// shuffles into the same shards, sorting, merging: every distinct key of
+// either input exactly once in the whole result, with the group of each
+// input's values.
+func zzH_C01_e2e_cogroup() {
+	old := *defaultChunksize
+	*defaultChunksize = 2
+	defer func() { *defaultChunksize = old }()
+	sess := Start(Local, Parallelism(1))
+	nshard := zz.AnyIntIn("nshard", 1, 2)
+	ka, va := zzE2ERows(zz.AnyIntIn("rowsA", 0, 2))
+	kb, vb := zzE2ERows(zz.AnyIntIn("rowsB", 0, 1))
+	res, err := sess.Run(context.Background(), zzE2ECogroup, nshard, ka, va, kb, vb)
+	zz.Assert(err == nil, "a failure-free program runs to success")
+	if err != nil {
+		return
+	}
+	sc := res.Scanner()
+	var keys []int64
+	var ga, gb [][]int64
+	var k int64
+	var a, b []int64
+	for sc.Scan(context.Background(), &k, &a, &b) {
+		keys = append(keys, k)
+		ga, gb = append(ga, append([]int64(nil), a...)), append(gb, append([]int64(nil), b...))
+	}
+	zz.Assert(sc.Err() == nil, "scanning a successful result does not fail")
+	zz.Reach("scanned")
+	all := append(append([]int64(nil), ka...), kb...)
+	distinct := 0
+	for i := range all {
+		first := true
+		for j := 0; j < i; j++ {
+			first = zz.And(first, all[j] != all[i])
+		}
+		distinct += zz.IteInt(first, 1, 0)
+	}
+	zz.Assert(len(keys) == distinct, "Cogroup: one row per distinct key of either input")
+	for i := range keys {
+		for j := 0; j < i; j++ {
+			zz.Assert(keys[i] != keys[j], "Cogroup: every distinct key is emitted exactly once in the whole result")
+		}
+		zzE2EGroupIs(ga[i], keys[i], ka, va, "Cogroup (first input)")
+		zzE2EGroupIs(gb[i], keys[i], kb, vb, "Cogroup (second input)")
+		if len(ga[i]) > 0 && len(gb[i]) > 0 {
+			zz.Reach("key present in both inputs")
+		}
+	}
+}
+
+var zzE2ECalls int
+
+func zzCountedMap(k, v int64) (int64, int64) { zzE2ECalls++; return k, zz.UFInt64("e2e.F", k, v) }
+
+var zzE2ECounted = bigslice.Func(func(nshard int, keys, vals []int64) bigslice.Slice {
+	return bigslice.Map(bigslice.Const(nshard, keys, vals), zzCountedMap)
+})
+
+// zzH_C19_e2e_sharedResult: two concurrent Session.Run calls whose Funcs both
+// consume the same Result (whose outputs may have been discarded, so that the
+// shared tasks must be recomputed while both runs are in flight): each run
+// returns the rows it would return alone, the shared tasks are executed by one
+// of the runs only, and no run blocks. Whole runs on the real Session and
+// in-process executor under the cooperative scheduler.
+func zzH_C19_e2e_sharedResult() {
+	old := *defaultChunksize
+	*defaultChunksize = 2
+	defer func() { *defaultChunksize = old }()
+	ctx := context.Background()
+	sess := zzE2ESession()
+	nshard := zz.AnyIntIn("nshard", 1, 2)
+	keys, vals := zzE2ERows(zz.AnyIntIn("rows", 0, 2))
+	res, err := sess.Run(ctx, zzE2ECounted, nshard, keys, vals)
+	zz.Assert(err == nil, "a failure-free program runs to success")
+	if err != nil {
+		return
+	}
+	zz.Assert(zzE2ECalls == len(keys), "the user function sees every row exactly once")
+	discarded := zz.AnyBool("discardBeforeReuse")
+	if discarded {
+		res.Discard(ctx)
+		zz.Reach("shared result discarded: both runs need it recomputed")
+	}
+	var rs [2]*Result
+	var errs [2]error
+	done := make(chan int, 2)
+	for r := 0; r < 2; r++ {
+		r := r
+		go func() {
+			rs[r], errs[r] = sess.Run(ctx, zzE2EUse, res)
+			done <- r
+		}()
+	}
+	<-done
+	<-done
+	zz.Reach("both runs returned")
+	want := len(keys)
+	if discarded {
+		want *= 2
+	}
+	zz.Assert(zzE2ECalls == want, "shared tasks are executed by one of the runs only (and only if their output was gone)")
+	var wk, wv []int64
+	for i := range keys {
+		k, v := zzUFMap2(keys[i], zz.UFInt64("e2e.F", keys[i], vals[i]))
+		wk, wv = append(wk, k), append(wv, v)
+	}
+	for r := 0; r < 2; r++ {
+		zz.Assert(errs[r] == nil, "each concurrent run succeeds")
+		if errs[r] != nil {
+			continue
+		}
+		gk, gv, serr := zzE2EScan(rs[r])
+		zz.Assert(serr == nil, "scanning a successful result does not fail")
+		zzE2ESameMultiset(gk, gv, wk, wv, "concurrent run")
+	}
 }
